@@ -1025,7 +1025,37 @@ pub fn fuzz_one(seed: u64, i: usize) -> (Vec<Value>, BTreeMap<String, usize>, Op
     match i % 5 {
         4 => {
             // every generator family is an input too: the derive must not panic on any of them
-            let def = match (i / 5) % 6 {
+            let def = match (i / 5) % 7 {
+                6 => {
+                    // rejected definitions whose diagnostics quote very long non-ASCII pattern text (any clipping or
+                    // wrapping of a message has to respect character boundaries): a long alternation of non-ASCII words,
+                    // padded by 0..3 ASCII characters so that every byte offset falls inside a character for some specimen
+                    let word = rng.pick_str(&["привет", "λόγος", "日本語", "😀😀", "ünï", "ßẞ"]);
+                    let n = rng.range(10, 500);
+                    let pad = "a".repeat(rng.below(4));
+                    let body = format!("{pad}{}", vec![word; n].join("|"));
+                    let mut d = Def::new(&name, "long-diagnostic", true);
+                    match rng.below(4) {
+                        0 => {
+                            d.push(Pat::regex(&body, 0));
+                            d.push(Pat::regex(&body, 0));
+                        }
+                        1 => {
+                            d.push(Pat::regex(&format!("{body}("), 0));
+                        }
+                        2 => {
+                            let t: String = vec![word; n].concat();
+                            d.push(Pat::token(&format!("{pad}{t}"), 0));
+                            d.push(Pat::token(&format!("{pad}{t}"), 0));
+                        }
+                        _ => {
+                            d.push(Pat::regex(&format!("({body})*"), 0));
+                            d.push(Pat::skip(&format!("{body}|(?&nope)")));
+                        }
+                    }
+                    d.normalize();
+                    d
+                }
                 0 => gen::f11_literal(&mut rng, &name),
                 1 => gen::f4_bytes(&mut rng, &name),
                 2 => gen::f10_subpat(&mut rng, &name),
